@@ -302,3 +302,421 @@ Proof.
   unfold rd. rewrite nget_upd_same. destruct (nget nd (info s1)); cbn; auto.
 Qed.
 End Getters.
+
+(* ======================================================================== *)
+(* Part 3 : the invariant (A)                                                *)
+Section InvA.
+Variable n : net.
+Notation N := (NN n).
+Hypothesis HN : 2 <= N.
+Notation RC sl := (Rc (fresh_ok n sl)).
+
+(* cost-only operations: the frame relative to the current sliced set *)
+Definition crel (s s' : tstate) : Prop := srel (RC (sliced s)) s s'.
+Lemma crel_refl s : crel s s.
+Proof. apply srelC_refl. Qed.
+Lemma crel_trans s1 s2 s3 : crel s1 s2 -> crel s2 s3 -> crel s1 s3.
+Proof. unfold crel. intros H1 H2. eapply srelC_trans; [exact H1|]. destruct H1 as (_&_&E&_). rewrite <- E. exact H2. Qed.
+Lemma crel_chok s s' : crel s s' -> chok (children s) -> chok (children s').
+Proof. intros (_&E&_) H. rewrite E. exact H. Qed.
+Lemma crel_fields s s' : info s' = info s -> children s' = children s -> sliced s' = sliced s ->
+  (err s = true -> err s' = true) -> crel s s'.
+Proof. apply srelC_fields. Qed.
+Lemma crel_keep nd f s : (forall i, rec_same i (f i) /\ i_legs (f i) = i_legs i) -> crel s (upd_info nd f s).
+Proof. apply srelC_keep. Qed.
+Lemma crel_err s s' : crel s s' -> err s' = false -> err s = false.
+Proof. intros (_&_&_&E) H. destruct (err s); [rewrite E in H by reflexivity; discriminate|reflexivity]. Qed.
+
+Lemma g_legs_crel s nd : chok (children s) -> crel s (fst (g_legs n s nd)).
+Proof. apply g_legs_rel, HN. Qed.
+Lemma g_involved_crel s nd : chok (children s) -> crel s (fst (g_involved n s nd)).
+Proof. apply g_involved_rel, HN. Qed.
+Lemma g_size_crel s nd : chok (children s) -> crel s (fst (g_size n s nd)).
+Proof. apply g_size_rel, HN. Qed.
+Lemma g_flops_crel s nd : chok (children s) -> crel s (fst (g_flops n s nd)).
+Proof. apply g_flops_rel, HN. Qed.
+
+Lemma update_tracked_crel nd s : chok (children s) -> crel s (update_tracked n nd s).
+Proof.
+  intros Hc. unfold update_tracked.
+  set (s1 := if trk_flops s then _ else s).
+  assert (H1 : crel s s1).
+  { unfold s1. destruct (trk_flops s); [|apply crel_refl]. pose proof (g_flops_crel s nd Hc) as H.
+    destruct (g_flops n s nd) as [sa fl]. cbn [fst] in H. eapply crel_trans; [exact H|]. apply crel_fields; cbn; auto. }
+  set (s2 := if trk_write s1 then _ else s1).
+  assert (H2 : crel s1 s2).
+  { unfold s2. destruct (trk_write s1); [|apply crel_refl]. pose proof (g_size_crel s1 nd (crel_chok _ _ H1 Hc)) as H.
+    destruct (g_size n s1 nd) as [sa fl]. cbn [fst] in H. eapply crel_trans; [exact H|]. apply crel_fields; cbn; auto. }
+  eapply crel_trans; [exact H1|]. eapply crel_trans; [exact H2|].
+  destruct (trk_size s2); [|apply crel_refl]. pose proof (g_size_crel s2 nd (crel_chok _ _ H2 (crel_chok _ _ H1 Hc))) as H.
+  destruct (g_size n s2 nd) as [sa fl]. cbn [fst] in H. eapply crel_trans; [exact H|]. apply crel_fields; cbn; auto.
+Qed.
+
+Lemma stats_body_crel nodes : forall s, chok (children s) -> crel s (stats_body n s nodes).
+Proof.
+  unfold stats_body. induction nodes as [|plr nodes IH]; intros s Hc; cbn [fold_left]; [apply crel_refl|].
+  pose proof (g_flops_crel s (fst plr) Hc) as H1. destruct (g_flops n s (fst plr)) as [s1 fl]. cbn [fst] in H1.
+  set (s2 := set_flops (flops_ s1 + fl)%Z s1).
+  assert (H2 : crel s s2) by (eapply crel_trans; [exact H1|apply crel_fields; cbn; auto]).
+  pose proof (g_size_crel s2 (fst plr) (crel_chok _ _ H2 Hc)) as H3. destruct (g_size n s2 (fst plr)) as [s3 sz]. cbn [fst] in H3.
+  set (s5 := set_sizes _ _).
+  assert (H5 : crel s s5).
+  { eapply crel_trans; [exact H2|]. eapply crel_trans; [exact H3|]. apply crel_fields; cbn; auto. }
+  eapply crel_trans; [exact H5|]. apply IH. apply (crel_chok _ _ H5 Hc).
+Qed.
+Lemma contract_stats_crel force s : chok (children s) -> crel s (contract_stats n force s).
+Proof.
+  intros Hc. unfold contract_stats. destruct (force || negb (trk_flops s && trk_write s && trk_size s)); [|apply crel_refl].
+  set (s0 := set_sizes mc_empty (set_write 0%Z (set_flops 0%Z s))).
+  assert (H0 : crel s s0) by (apply crel_fields; cbn; auto).
+  destruct (traverse n s0) as [nodes|]; [|eapply crel_trans; [exact H0|apply crel_fields; cbn; auto]].
+  eapply crel_trans; [exact H0|]. eapply crel_trans; [apply stats_body_crel, (crel_chok _ _ H0 Hc)|]. apply crel_fields; cbn; auto.
+Qed.
+Lemma fold1_crel (g : tstate -> node -> tstate) (nodes : list (node * (node * node))) :
+  (forall s nd, chok (children s) -> crel s (g s nd)) ->
+  forall s, chok (children s) -> crel s (fold_left (fun s plr => g s (fst plr)) nodes s).
+Proof.
+  intros Hg. induction nodes as [|plr nodes IH]; intros s Hc; cbn [fold_left]; [apply crel_refl|].
+  eapply crel_trans; [apply Hg, Hc|]. apply IH. apply (crel_chok _ _ (Hg s (fst plr) Hc) Hc).
+Qed.
+Lemma total_flops_crel s : chok (children s) -> crel s (total_flops_op n s).
+Proof.
+  intros Hc. unfold total_flops_op. destruct (trk_flops s); [apply crel_refl|].
+  set (s0 := set_flops 0%Z s). assert (H0 : crel s s0) by (apply crel_fields; cbn; auto).
+  destruct (traverse n s0) as [nodes|]; [|eapply crel_trans; [exact H0|apply crel_fields; cbn; auto]].
+  eapply crel_trans; [exact H0|].
+  eapply crel_trans; [|apply crel_fields; cbn; auto].
+  apply (fold1_crel (fun s nd => let '(s1, fl) := g_flops n s nd in set_flops (flops_ s1 + fl)%Z s1)); [|apply (crel_chok _ _ H0 Hc)].
+  intros s' nd Hc'. pose proof (g_flops_crel s' nd Hc') as H. destruct (g_flops n s' nd) as [s1 fl]. cbn [fst] in H.
+  eapply crel_trans; [exact H|apply crel_fields; cbn; auto].
+Qed.
+Lemma total_write_crel s : chok (children s) -> crel s (total_write_op n s).
+Proof.
+  intros Hc. unfold total_write_op. destruct (trk_write s); [apply crel_refl|].
+  set (s0 := set_write 0%Z s). assert (H0 : crel s s0) by (apply crel_fields; cbn; auto).
+  destruct (traverse n s0) as [nodes|]; [|eapply crel_trans; [exact H0|apply crel_fields; cbn; auto]].
+  eapply crel_trans; [exact H0|].
+  eapply crel_trans; [|apply crel_fields; cbn; auto].
+  apply (fold1_crel (fun s nd => let '(s1, sz) := g_size n s nd in set_write (write_ s1 + sz)%Z s1)); [|apply (crel_chok _ _ H0 Hc)].
+  intros s' nd Hc'. pose proof (g_size_crel s' nd Hc') as H. destruct (g_size n s' nd) as [s1 fl]. cbn [fst] in H.
+  eapply crel_trans; [exact H|apply crel_fields; cbn; auto].
+Qed.
+Lemma max_size_crel s : chok (children s) -> crel s (max_size_op n s).
+Proof.
+  intros Hc. unfold max_size_op. destruct (Nat.eqb N 1); [apply g_size_crel, Hc|]. destruct (trk_size s); [apply crel_refl|].
+  set (s0 := set_sizes mc_empty s). assert (H0 : crel s s0) by (apply crel_fields; cbn; auto).
+  destruct (traverse n s0) as [nodes|]; [|eapply crel_trans; [exact H0|apply crel_fields; cbn; auto]].
+  eapply crel_trans; [exact H0|].
+  eapply crel_trans; [|apply crel_fields; cbn; auto].
+  apply (fold1_crel (fun s nd => let '(s1, sz) := g_size n s nd in set_sizes (mc_add sz (sizes_mc s1)) s1)); [|apply (crel_chok _ _ H0 Hc)].
+  intros s' nd Hc'. pose proof (g_size_crel s' nd Hc') as H. destruct (g_size n s' nd) as [s1 fl]. cbn [fst] in H.
+  eapply crel_trans; [exact H|apply crel_fields; cbn; auto].
+Qed.
+
+(* ---- the invariant ---- *)
+Definition is_lr (nd : node) : bool := Nat.eqb (length nd) 1 || Nat.eqb (length nd) N.
+(* v is the index order of a node whose legs are lg: exactly the key order on leaves and on the
+   root, a duplicate-free enumeration elsewhere *)
+Definition enum_ok (nd : node) (v : list ix) (lg : legs) : Prop :=
+  if is_lr nd then v = lkeys lg else NoDup v /\ forall j, In j v <-> In j (lkeys lg).
+Lemma enum_in nd v lg : enum_ok nd v lg -> forall j, In j v <-> In j (lkeys lg).
+Proof. unfold enum_ok. destruct (is_lr nd); [intros -> j; tauto|intros [_ H]; exact H]. Qed.
+
+(* X = true: the index-order clause is suspended on this node (in the middle of an update) *)
+Definition entA (LV : node -> legs -> Prop) (X : bool) (nd : node) (i : ninfo) : Prop :=
+  (forall lg, i_legs i = Some lg -> LV nd lg) /\
+  (X = false -> forall v, i_inds i = Some v -> exists lg, i_legs i = Some lg /\ enum_ok nd v lg).
+Definition PAX (LV : node -> legs -> Prop) (X : node -> bool) (s : tstate) : Prop :=
+  forall nd i, nget nd (info s) = Some i -> entA LV (X nd) nd i.
+Definition noX : node -> bool := fun _ => false.
+Definition PA (s : tstate) : Prop := PAX (fresh_ok n (sliced s)) noX s.
+Definition PAe (s : tstate) : Prop := err s = false -> PA s.
+
+Lemma entA_noinfo (LV : node -> legs -> Prop) X nd : entA LV X nd noinfo.
+Proof. split; cbn; intros; discriminate. Qed.
+Lemma PAX_srel (LV LV' : node -> legs -> Prop) X s s' : PAX LV X s -> srel (Rc LV') s s' -> (forall nd lg, LV' nd lg -> LV nd lg) -> PAX LV X s'.
+Proof.
+  intros HP (A1&_) HL nd i' Hi'. destruct (irel_nget_rev _ _ _ A1 nd i' Hi') as (i & Hi & (Ei&_) & Hs).
+  destruct (HP nd i Hi) as [P1 P2]. split.
+  - intros lg Hl. unfold legs_step in Hs. destruct (i_legs i) as [lg0|] eqn:E0.
+    + rewrite Hs in Hl. injection Hl as <-. apply P1. reflexivity.
+    + apply HL, Hs, Hl.
+  - intros HX v Hv. rewrite Ei in Hv. destruct (P2 HX v Hv) as (lg & El & He). exists lg. split; [|exact He].
+    unfold legs_step in Hs. rewrite El in Hs. exact Hs.
+Qed.
+Lemma PAX_info (LV : node -> legs -> Prop) X s s' : info s' = info s -> PAX LV X s -> PAX LV X s'.
+Proof. intros E H nd i Hi. rewrite E in Hi. apply H, Hi. Qed.
+Lemma PAX_upd (LV : node -> legs -> Prop) X nd f s : PAX LV X s ->
+  (forall i, nget nd (info s) = Some i -> entA LV (X nd) nd i -> entA LV (X nd) nd (f i)) -> PAX LV X (upd_info nd f s).
+Proof.
+  intros HP Hf q i' Hi'. destruct (node_eq_dec q nd) as [->|Hn].
+  - rewrite nget_upd_same in Hi'. destruct (nget nd (info s)) as [i|] eqn:E; [|discriminate]. injection Hi' as <-.
+    apply Hf; [reflexivity|apply HP, E].
+  - rewrite nget_upd_other in Hi' by exact Hn. apply HP, Hi'.
+Qed.
+Lemma PAX_weaken (LV LV' : node -> legs -> Prop) X s : (forall nd lg, nget nd (info s) <> None -> LV nd lg -> LV' nd lg) -> PAX LV X s -> PAX LV' X s.
+Proof.
+  intros HL HP nd i Hi. destruct (HP nd i Hi) as [P1 P2]. split; [|exact P2].
+  intros lg Hl. apply HL; [congruence|apply P1, Hl].
+Qed.
+Lemma PAX_unsuspend (LV : node -> legs -> Prop) (X : node -> bool) s : PAX LV X s ->
+  (forall nd i, nget nd (info s) = Some i -> X nd = true -> i_inds i = None) -> PAX LV noX s.
+Proof.
+  intros HP HX nd i Hi. destruct (HP nd i Hi) as [P1 P2]. split; [exact P1|]. intros _ v Hv.
+  destruct (X nd) eqn:E; [rewrite (HX nd i Hi E) in Hv; discriminate|apply P2; [reflexivity|exact Hv]].
+Qed.
+Lemma PAX_suspend (LV : node -> legs -> Prop) (X : node -> bool) s : PAX LV noX s -> PAX LV X s.
+Proof. intros HP nd i Hi. destruct (HP nd i Hi) as [P1 P2]. split; [exact P1|]. intros _. apply P2. reflexivity. Qed.
+
+Lemma PA_crel s s' : PA s -> crel s s' -> PA s'.
+Proof.
+  intros HP HC. unfold PA. destruct HC as (A1&A2&A3&A4). rewrite A3.
+  apply (PAX_srel _ (fresh_ok n (sliced s)) _ s s' HP); [exact (conj A1 (conj A2 (conj A3 A4)))|auto].
+Qed.
+Lemma PAe_crel s s' : PAe s -> crel s s' -> PAe s'.
+Proof. intros HP HC He. apply (PA_crel s s'); [apply HP, (crel_err _ _ HC He)|exact HC]. Qed.
+
+(* ---- structural primitives ---- *)
+Lemma PAX_add_node (LV : node -> legs -> Prop) X nd s : PAX LV X s -> PAX LV X (add_node nd s).
+Proof.
+  intros HP. unfold add_node. destruct (nmem nd (info s)); [exact HP|].
+  intros q i Hi. cbn [set_info info] in Hi.
+  destruct (nget q (info s)) as [i0|] eqn:E.
+  - rewrite (nget_app_l q (info s) [(nd, noinfo)] i0 E) in Hi. injection Hi as <-. apply HP, E.
+  - rewrite (nget_app_r q (info s) [(nd, noinfo)] E) in Hi. cbn in Hi. destruct (node_eqb nd q); [|discriminate].
+    injection Hi as <-. apply entA_noinfo.
+Qed.
+
+(* the part of _remove_node before the node is dropped *)
+Definition rn_pre (nd : node) (s : tstate) : tstate :=
+  let s1 := if trk_size s then let '(sa, sz) := g_size n s nd in set_sizes (mc_discard sz (sizes_mc sa)) sa else s in
+  let s2 := if trk_flops s1 then let '(sa, fl) := g_flops n s1 nd in set_flops (flops_ sa - fl)%Z sa else s1 in
+  if trk_write s2 then let '(sa, sz) := g_size n s2 nd in set_write (write_ sa - sz)%Z sa else s2.
+Lemma rn_pre_crel nd s : chok (children s) -> crel s (rn_pre nd s).
+Proof.
+  intros Hc. unfold rn_pre.
+  set (s1 := if trk_size s then _ else s).
+  assert (H1 : crel s s1).
+  { unfold s1. destruct (trk_size s); [|apply crel_refl]. pose proof (g_size_crel s nd Hc) as H.
+    destruct (g_size n s nd) as [sa fl]. cbn [fst] in H. eapply crel_trans; [exact H|]. apply crel_fields; cbn; auto. }
+  set (s2 := if trk_flops s1 then _ else s1).
+  assert (H2 : crel s1 s2).
+  { unfold s2. destruct (trk_flops s1); [|apply crel_refl]. pose proof (g_flops_crel s1 nd (crel_chok _ _ H1 Hc)) as H.
+    destruct (g_flops n s1 nd) as [sa fl]. cbn [fst] in H. eapply crel_trans; [exact H|]. apply crel_fields; cbn; auto. }
+  eapply crel_trans; [exact H1|]. eapply crel_trans; [exact H2|].
+  destruct (trk_write s2); [|apply crel_refl]. pose proof (g_size_crel s2 nd (crel_chok _ _ H2 (crel_chok _ _ H1 Hc))) as H.
+  destruct (g_size n s2 nd) as [sa fl]. cbn [fst] in H. eapply crel_trans; [exact H|]. apply crel_fields; cbn; auto.
+Qed.
+Lemma remove_node_eq nd s : remove_node n nd s =
+  if Nat.eqb (length nd) 1 then set_preproc (pdel (hd 0 nd) (preproc (clear_info nd s))) (clear_info nd s)
+  else let s3 := rn_pre nd s in
+       let s4 := if nmem nd (children s3) then set_children (ndel nd (children s3)) s3 else set_err s3 in
+       if Nat.eqb (length nd) N then clear_info nd s4
+       else if nmem nd (info s4) then set_info (ndel nd (info s4)) s4 else set_err s4.
+Proof. reflexivity. Qed.
+
+Lemma In_ndel {V} k (d : list (node * V)) e : In e (ndel k d) -> In e d.
+Proof.
+  induction d as [|[k' w] d IH]; cbn; [tauto|]. destruct (node_eqb k' k); [intros H; right; exact H|].
+  intros [H|H]; [left; exact H|right; apply IH, H].
+Qed.
+Lemma In_nset {V} k v (d : list (node * V)) e : In e (nset k v d) -> e = (k, v) \/ In e d.
+Proof.
+  induction d as [|[k' w] d IH]; cbn; [intros [H|[]]; left; symmetry; exact H|].
+  destruct (node_eqb k' k) eqn:E.
+  - apply node_eqb_eq in E. subst k'. intros [H|H]; [left; symmetry; exact H|right; right; exact H].
+  - intros [H|H]; [right; left; exact H|]. destruct (IH H) as [H'|H']; [left; exact H'|right; right; exact H'].
+Qed.
+Lemma chok_ndel k ch : chok ch -> chok (ndel k ch).
+Proof. intros H p l r Hin. apply H. apply (In_ndel k ch _ Hin). Qed.
+
+(* facts about the state _remove_node returns *)
+Lemma remove_node_facts nd s : chok (children s) ->
+  sliced (remove_node n nd s) = sliced s /\ chok (children (remove_node n nd s)) /\ (err s = true -> err (remove_node n nd s) = true).
+Proof.
+  intros Hc. rewrite remove_node_eq. destruct (Nat.eqb (length nd) 1).
+  { unfold clear_info. destruct (upd_info_fields nd (fun _ => noinfo) s) as (F1&F2&_). cbn [set_preproc sliced children err].
+    rewrite F1, F2. split; [reflexivity|]. split; [exact Hc|]. unfold upd_info. destruct (nget nd (info s)); cbn; auto. }
+  cbn zeta. pose proof (rn_pre_crel nd s Hc) as H3. set (s3 := rn_pre nd s) in *.
+  destruct H3 as (_&E2&E3&E4).
+  set (s4 := if nmem nd (children s3) then _ else set_err s3).
+  assert (H4 : sliced s4 = sliced s /\ chok (children s4) /\ (err s = true -> err s4 = true)).
+  { unfold s4. destruct (nmem nd (children s3)); cbn [set_children set_err sliced children err].
+    - split; [exact E3|]. split; [apply chok_ndel; rewrite E2; exact Hc|exact E4].
+    - split; [exact E3|]. split; [rewrite E2; exact Hc|auto]. }
+  destruct H4 as (G1&G2&G3).
+  destruct (Nat.eqb (length nd) N).
+  - unfold clear_info. destruct (upd_info_fields nd (fun _ => noinfo) s4) as (F1&F2&_). rewrite F1, F2.
+    split; [exact G1|]. split; [exact G2|]. intros He. unfold upd_info. destruct (nget nd (info s4)); cbn; auto.
+  - destruct (nmem nd (info s4)); cbn [set_info set_err sliced children err]; auto.
+Qed.
+Lemma PAX_remove_node (LV : node -> legs -> Prop) X nd s : chok (children s) -> NoDup (nkeys (info s)) ->
+  (forall q lg, fresh_ok n (sliced s) q lg -> LV q lg) -> PAX LV X s -> PAX LV X (remove_node n nd s).
+Proof.
+  intros Hc ND HL HP. rewrite remove_node_eq. destruct (Nat.eqb (length nd) 1).
+  { apply (PAX_info _ _ (clear_info nd s)); [reflexivity|]. apply PAX_upd; [exact HP|]. intros; apply entA_noinfo. }
+  cbn zeta. pose proof (rn_pre_crel nd s Hc) as H3. set (s3 := rn_pre nd s) in *.
+  assert (P3 : PAX LV X s3) by (apply (PAX_srel LV _ X s s3 HP H3 HL)).
+  assert (ND3 : NoDup (nkeys (info s3))) by (destruct H3 as (A1&_); rewrite (irel_nkeys _ _ _ A1); exact ND).
+  set (s4 := if nmem nd (children s3) then _ else set_err s3).
+  assert (E4 : info s4 = info s3) by (unfold s4; destruct (nmem nd (children s3)); reflexivity).
+  assert (P4 : PAX LV X s4) by (apply (PAX_info _ _ s3); assumption).
+  destruct (Nat.eqb (length nd) N).
+  - apply PAX_upd; [exact P4|]. intros; apply entA_noinfo.
+  - destruct (nmem nd (info s4)); [|apply (PAX_info _ _ s4); [reflexivity|exact P4]].
+    intros q i Hi. cbn [set_info info] in Hi. destruct (node_eq_dec q nd) as [->|Hn].
+    + rewrite nget_ndel_same in Hi by (rewrite E4; exact ND3). discriminate.
+    + rewrite nget_ndel_other in Hi by exact Hn. apply P4, Hi.
+Qed.
+
+(* contract_nodes_pair *)
+Lemma chok_nset p l r ch : chok ch -> l <> [] -> r <> [] -> NoDup (l ++ r) -> Permutation p (l ++ r) -> chok (nset p (l, r) ch).
+Proof.
+  intros H Hl Hr ND HP p' l' r' Hin. apply In_nset in Hin. destruct Hin as [E|Hin]; [|apply H, Hin].
+  injection E as -> -> ->. auto.
+Qed.
+Lemma order_pair_cases x y : order_pair x y = (x, y) \/ order_pair x y = (y, x).
+Proof. unfold order_pair. destruct (if Nat.eqb (length x) (length y) then _ else _); auto. Qed.
+Lemma NoDup_app_comm {A} (a b : list A) : NoDup (a ++ b) -> NoDup (b ++ a).
+Proof. apply Permutation_NoDup, Permutation_app_comm. Qed.
+Lemma nunion_perm' x y : NoDup (x ++ y) -> Permutation (nunion x y) (x ++ y).
+Proof.
+  intros ND. apply nunion_perm; [apply (NoDup_app_elim _ _ ND)|]. intros k Hy Hx.
+  apply (NoDup_app_disjoint x y ND k Hx Hy).
+Qed.
+Lemma chok_pair x y ch : chok ch -> x <> [] -> y <> [] -> NoDup (x ++ y) -> chok (nset (nunion x y) (order_pair x y) ch).
+Proof.
+  intros H Hx Hy ND. destruct (order_pair_cases x y) as [->| ->].
+  - apply chok_nset; auto. apply nunion_perm', ND.
+  - apply chok_nset; auto; [apply NoDup_app_comm, ND|].
+    eapply Permutation_trans; [apply nunion_perm', ND|apply Permutation_app_comm].
+Qed.
+
+Definition cp_pre (x y : node) (lg : option legs) (cost size : option Z) (s : tstate) : tstate :=
+  let parent := nunion x y in
+  let s1 := add_node parent (add_node y (add_node x s)) in
+  let s2 := set_children (nset parent (order_pair x y) (children s1)) s1 in
+  let s3 := match lg with Some l => upd_info parent (w_legs (Some l)) s2 | None => s2 end in
+  let s4 := match cost with Some c => upd_info parent (w_flops (Some c)) s3 | None => s3 end in
+  match size with Some c => upd_info parent (w_size (Some c)) s4 | None => s4 end.
+Lemma contract_pair_eq x y lg c z s : contract_pair n x y lg c z s = update_tracked n (nunion x y) (cp_pre x y lg c z s).
+Proof. reflexivity. Qed.
+Lemma add_node_fields nd s : children (add_node nd s) = children s /\ sliced (add_node nd s) = sliced s /\ err (add_node nd s) = err s.
+Proof. unfold add_node. destruct (nmem nd (info s)); auto. Qed.
+Lemma cp_pre_fields x y lg c z s :
+  children (cp_pre x y lg c z s) = nset (nunion x y) (order_pair x y) (children s) /\
+  sliced (cp_pre x y lg c z s) = sliced s /\ (err s = true -> err (cp_pre x y lg c z s) = true).
+Proof.
+  unfold cp_pre.
+  destruct (add_node_fields x s) as (A1&A2&A3). destruct (add_node_fields y (add_node x s)) as (B1&B2&B3).
+  destruct (add_node_fields (nunion x y) (add_node y (add_node x s))) as (C1&C2&C3).
+  set (s1 := add_node (nunion x y) (add_node y (add_node x s))) in *.
+  set (s2 := set_children (nset (nunion x y) (order_pair x y) (children s1)) s1).
+  assert (H2 : children s2 = nset (nunion x y) (order_pair x y) (children s) /\ sliced s2 = sliced s /\ (err s = true -> err s2 = true)).
+  { unfold s2. cbn [set_children children sliced err]. rewrite C1, B1, A1, C2, B2, A2, C3, B3, A3. auto. }
+  assert (Hupd : forall f s', (children s' = nset (nunion x y) (order_pair x y) (children s) /\ sliced s' = sliced s /\ (err s = true -> err s' = true)) ->
+            (children (upd_info (nunion x y) f s') = nset (nunion x y) (order_pair x y) (children s) /\
+             sliced (upd_info (nunion x y) f s') = sliced s /\ (err s = true -> err (upd_info (nunion x y) f s') = true))).
+  { intros f s' (D1&D2&D3). destruct (upd_info_fields (nunion x y) f s') as (F1&F2&_). rewrite F1, F2.
+    split; [exact D1|]. split; [exact D2|]. intros He. unfold upd_info. destruct (nget (nunion x y) (info s')); cbn; auto. }
+  set (s3 := match lg with Some l => _ | None => s2 end).
+  assert (H3 : children s3 = nset (nunion x y) (order_pair x y) (children s) /\ sliced s3 = sliced s /\ (err s = true -> err s3 = true))
+    by (unfold s3; destruct lg; [apply Hupd, H2|exact H2]).
+  set (s4 := match c with Some c0 => _ | None => s3 end).
+  assert (H4 : children s4 = nset (nunion x y) (order_pair x y) (children s) /\ sliced s4 = sliced s /\ (err s = true -> err s4 = true))
+    by (unfold s4; destruct c; [apply Hupd, H3|exact H3]).
+  destruct z; [apply Hupd, H4|exact H4].
+Qed.
+(* the supplied legs (annealing) must be valid, and compatible with an index order that is
+   already cached on the parent *)
+Lemma PAX_cp_pre (LV : node -> legs -> Prop) X x y lg c z s : PAX LV X s ->
+  (forall l, lg = Some l -> LV (nunion x y) l /\
+     forall i lg0 v, nget (nunion x y) (info s) = Some i -> i_legs i = Some lg0 -> enum_ok (nunion x y) v lg0 -> enum_ok (nunion x y) v l) ->
+  PAX LV X (cp_pre x y lg c z s).
+Proof.
+  intros HP Hl. unfold cp_pre. set (p := nunion x y) in *.
+  set (s1 := add_node p (add_node y (add_node x s))).
+  assert (P1 : PAX LV X s1) by (unfold s1; do 3 apply PAX_add_node; exact HP).
+  assert (Hp1 : forall i, nget p (info s1) = Some i -> nget p (info s) = Some i \/ i = noinfo).
+  { intros i Hi. unfold s1 in Hi.
+    assert (Hadd : forall nd s0 q j, nget q (info (add_node nd s0)) = Some j -> nget q (info s0) = Some j \/ j = noinfo).
+    { intros nd s0 q j. unfold add_node. destruct (nmem nd (info s0)); [auto|]. cbn [set_info info].
+      destruct (nget q (info s0)) as [i0|] eqn:E.
+      - rewrite (nget_app_l q (info s0) [(nd, noinfo)] i0 E). auto.
+      - rewrite (nget_app_r q (info s0) [(nd, noinfo)] E). cbn. destruct (node_eqb nd q); [|discriminate]. intros [= <-]. auto. }
+    destruct (Hadd _ _ _ _ Hi) as [H|H]; [|auto]. destruct (Hadd _ _ _ _ H) as [H'|H']; [|auto]. apply (Hadd _ _ _ _ H'). }
+  set (s2 := set_children (nset p (order_pair x y) (children s1)) s1).
+  assert (P2 : PAX LV X s2) by (apply (PAX_info _ _ s1); [reflexivity|exact P1]).
+  set (s3 := match lg with Some l => _ | None => s2 end).
+  assert (P3 : PAX LV X s3).
+  { unfold s3. destruct lg as [l|]; [|exact P2]. destruct (Hl l eq_refl) as [Hv Hcompat].
+    apply PAX_upd; [exact P2|]. intros i Hi [E1 E2]. split.
+    - cbn. intros lg' [= <-]. exact Hv.
+    - intros HX v Hv'. cbn in Hv'. destruct (E2 HX v Hv') as (lg0 & El0 & He). exists l. split; [reflexivity|].
+      change (info s2) with (info s1) in Hi. destruct (Hp1 i Hi) as [Hi0| ->]; [|discriminate].
+      apply (Hcompat i lg0 v Hi0 El0 He). }
+  set (s4 := match c with Some c0 => _ | None => s3 end).
+  assert (Hkeep : forall f s', (forall i, rec_same i (f i) /\ i_legs (f i) = i_legs i) -> PAX LV X s' -> PAX LV X (upd_info p f s')).
+  { intros f s' Hf HP'. apply PAX_upd; [exact HP'|]. intros i _ [E1 E2]. destruct (Hf i) as [(R1&_) R2]. split.
+    - rewrite R2. exact E1.
+    - intros HX v. rewrite R1, R2. apply E2, HX. }
+  assert (P4 : PAX LV X s4).
+  { unfold s4. destruct c; [|exact P3]. apply Hkeep; [|exact P3]. intros i. split; [unfold rec_same; cbn; auto|reflexivity]. }
+  destruct z; [|exact P4]. apply Hkeep; [|exact P4]. intros i. split; [unfold rec_same; cbn; auto|reflexivity].
+Qed.
+Lemma PAX_contract_pair (LV : node -> legs -> Prop) X x y lg c z s : chok (children s) -> x <> [] -> y <> [] -> NoDup (x ++ y) ->
+  (forall q l, fresh_ok n (sliced s) q l -> LV q l) -> PAX LV X s ->
+  (forall l, lg = Some l -> LV (nunion x y) l /\
+     forall i lg0 v, nget (nunion x y) (info s) = Some i -> i_legs i = Some lg0 -> enum_ok (nunion x y) v lg0 -> enum_ok (nunion x y) v l) ->
+  PAX LV X (contract_pair n x y lg c z s) /\ sliced (contract_pair n x y lg c z s) = sliced s /\
+  chok (children (contract_pair n x y lg c z s)) /\ (err s = true -> err (contract_pair n x y lg c z s) = true).
+Proof.
+  intros Hc Hx Hy ND HL HP Hl. rewrite contract_pair_eq.
+  destruct (cp_pre_fields x y lg c z s) as (F1&F2&F3).
+  pose proof (PAX_cp_pre LV X x y lg c z s HP Hl) as P5. set (s5 := cp_pre x y lg c z s) in *.
+  assert (Hc5 : chok (children s5)) by (rewrite F1; apply chok_pair; assumption).
+  pose proof (update_tracked_crel (nunion x y) s5 Hc5) as H6.
+  split; [apply (PAX_srel LV _ X s5 _ P5 H6); rewrite F2; exact HL|].
+  destruct H6 as (_&E2&E3&E4). split; [congruence|]. split; [rewrite E2; exact Hc5|auto].
+Qed.
+
+(* reset_contraction_indices / _reset_contraction_recipes *)
+Lemma PAX_over_children (LV : node -> legs -> Prop) X f (L : list (node * (node * node))) :
+  (forall i, i_legs (f i) = i_legs i /\ (i_inds (f i) = i_inds i \/ i_inds (f i) = None)) ->
+  forall s, PAX LV X s -> PAX LV X (fold_left (fun s p => upd_info (fst p) f s) L s).
+Proof.
+  intros Hf. induction L as [|p L IH]; intros s HP; cbn [fold_left]; [exact HP|].
+  apply IH. apply PAX_upd; [exact HP|]. intros i _ [E1 E2]. destruct (Hf i) as [R1 R2]. split.
+  - rewrite R1. exact E1.
+  - intros HX v Hv. rewrite R1. destruct R2 as [R2|R2]; rewrite R2 in Hv; [apply (E2 HX v Hv)|discriminate].
+Qed.
+Lemma fold_upd_fields f (L : list (node * (node * node))) : forall s,
+  children (fold_left (fun s p => upd_info (fst p) f s) L s) = children s /\
+  sliced (fold_left (fun s p => upd_info (fst p) f s) L s) = sliced s /\
+  (err s = true -> err (fold_left (fun s p => upd_info (fst p) f s) L s) = true).
+Proof.
+  induction L as [|p L IH]; intros s; cbn [fold_left]; [auto|].
+  destruct (IH (upd_info (fst p) f s)) as (A1&A2&A3). destruct (upd_info_fields (fst p) f s) as (F1&F2&_).
+  rewrite A1, A2, F1, F2. split; [reflexivity|]. split; [reflexivity|]. intros He. apply A3.
+  unfold upd_info. destruct (nget (fst p) (info s)); cbn; auto.
+Qed.
+Lemma over_children_fields f s : children (over_children f s) = children s /\ sliced (over_children f s) = sliced s /\
+  (err s = true -> err (over_children f s) = true).
+Proof. apply fold_upd_fields. Qed.
+Lemma PA_reset_recipes s : PA s -> PA (reset_recipes s).
+Proof.
+  intros HP. unfold reset_recipes, PA. cbn [set_cores sliced]. destruct (over_children_fields drop_recipes s) as (_&E&_). rewrite E.
+  apply (PAX_info _ _ (over_children drop_recipes s)); [reflexivity|]. unfold over_children.
+  apply PAX_over_children; [|exact HP]. intros i. cbn. auto.
+Qed.
+Lemma PA_reset_inds s : PA s -> PA (reset_inds s).
+Proof.
+  intros HP. unfold reset_inds, PA. cbn [set_cores sliced]. destruct (over_children_fields drop_inds_recipes s) as (_&E&_). rewrite E.
+  apply (PAX_info _ _ (over_children drop_inds_recipes s)); [reflexivity|]. unfold over_children.
+  apply PAX_over_children; [|exact HP]. intros i. cbn. auto.
+Qed.
+Lemma reset_recipes_err s : err s = true -> err (reset_recipes s) = true.
+Proof. intros H. unfold reset_recipes. cbn. apply over_children_fields, H. Qed.
+Lemma reset_inds_err s : err s = true -> err (reset_inds s) = true.
+Proof. intros H. unfold reset_inds. cbn. apply over_children_fields, H. Qed.
+End InvA.
